@@ -59,6 +59,9 @@ def tree_hash(root, skip):
 
 
 def enc(name):
+    if isinstance(name, bytes):
+        # a raw wire spelling (e.g. a non-canonical modified-UTF-7 form that hides a letter of the name)
+        return b'{%d+}\r\n' % len(name) + name
     raw = mutf7_encode(name) if '\x00' not in name else name.encode('utf-8')
     return b'{%d+}\r\n' % len(raw) + raw
 
@@ -148,6 +151,10 @@ def names(tier):
             out.append('/'.join(t))
     out += ['INBOX', 'inbox', 'INBOX/', 'INBOX//', 'inbox/', 'INBOX/.', 'a/', 'bob/', 'INBOX/..', '../bob', '../bob/cur', '..', '/', '//', '/etc', '/tmp/x', 'a/../../bob',
             '../pymap-etc-passwd', './', './/', 'Existing/..', 'a' * 300]
+    # raw wire spellings: modified-UTF-7 shift sequences that spell ordinary ASCII letters (not canonical, but decodable):
+    # layers that disagree on what such a name IS (INBOX or not, '.' / '..' / '/' or not) must not open a way out
+    out += [b'&AGk-nbox', b'&AGkAbgBiAG8AeA-', b'I&AG4-box', b'&AEk-NBOX', b'&AEkATgBCAE8AWA-', b'inbo&AHg-', b'&AC4ALg-', b'&AC4-',
+            b'&AC4ALg-/bob', b'a/&AC4ALg-/&AC4ALg-/bob', b'&AC8-etc', b'&AC4ALg-&AC8-bob', b'INBOX&AC8-x', b'&ATE-nbox']
     return list(dict.fromkeys(out))
 
 
